@@ -416,4 +416,37 @@ def run(tier):
                          win.relfile, esc7[-1][1], [p_[1] for p_ in esc7[-6:-1]]), file=win.relfile, line=esc7[-1][1])
     res.instance("C16.R7", "dtlsChkReplayWindow: every `return 1` path marks the accepted record", esc7 is None, finding=f7)
     res.floor("C16.R7", 1)
+    # ------------------------------------------------------------------ R8
+    # 'completes once datagrams are eventually delivered, by timeout-driven retransmission': ssl->appDataExch means `the peer
+    # has certainly seen our last flight` - with it set, matrixDtlsGetOutdata no longer rebuilds the flight and the decoder no
+    # longer answers an old-epoch ChangeCipherSpec with a retransmission.  Only RECEIVING application data proves that; the
+    # flag is raised only by the receive entry point, every other store clears it.
+    res.rule("C16.R8", "the `peer has seen our last flight` flag (appDataExch) is raised only where application data was received")
+    RAISERS = {"matrixSslReceivedData": "application data decoded from the peer (returns MATRIXSSL_APP_DATA)"}
+    n8 = 0
+    for fn in sorted(prog.functions.values(), key=lambda f: f.qname):
+        if not fn.blocks or not fn.relfile.startswith("matrixssl/") or "/test/" in fn.relfile:
+            continue
+        for b in fn.blocks:
+            for i, ln, x in cu.block_exprs(b):
+                for m in walk(x):
+                    tgt = val = None
+                    if m.get("k") == "bin" and m["op"].endswith("=") and m["op"] not in ("==", "!=", "<=", ">="):
+                        tgt, val = strip(m["l"]), strip(m["r"])
+                    elif m.get("k") == "un" and m.get("op") in ("post++", "pre++", "++"):
+                        tgt, val = strip(m["e"]), {"k": "int", "v": 1}
+                    if tgt is None or tgt.get("k") != "mem" or tgt.get("f") != "appDataExch":
+                        continue
+                    n8 += 1
+                    clears = m.get("op") == "=" and val is not None and val.get("k") == "int" and val["v"] == 0
+                    ok = clears or fn.name in RAISERS
+                    f8 = None
+                    if not ok:
+                        f8 = Finding(PROP, "C16.R8", fn.name, "appDataExch raised outside the receive path",
+                                     "%s:%s %s(): ssl->appDataExch is set where no application data of the peer was received: the flag stops "
+                                     "the rebuild of the last flight (matrixDtlsGetOutdata) and the answer to a retransmitted old-epoch "
+                                     "ChangeCipherSpec, so if the last flight was lost the peer's timeout-driven retransmissions never get it "
+                                     "again and its handshake never completes" % (fn.relfile, ln, fn.name), file=fn.relfile, line=ln)
+                    res.instance("C16.R8", "%s:%s store to appDataExch %s" % (fn.name, ln, "clears" if clears else "raises (receive path)"), ok, finding=f8)
+    res.floor("C16.R8", 4)
     return res.finish()
